@@ -8,6 +8,7 @@ CFG = {
             "generated streams (three chunkings), Close() issued while blocked in a read at every chunk boundary, four consumers "
             "(Finish at once / retain everything / Finish 1..5 items late) with deep copies compared to the retained originals, "
             "Escape-timer scripts with 40 ms pauses after a lone ESC and back-to-back reads otherwise (incl. a C0 control executed in the escape state before the pause); "
+            "the same timing shapes with a slow consumer (25 ms before every receive: emit blocks, a timer callback blocks in emit holding the mutex); "
             "hook-held timer callbacks released before / inside / after the following bytes; distinct by (consumer, script)",
     "trusted_base": ["the statement order of run/readRune/the timer callback in Model/ParserRunFine.lean is pinned to the regenerated skeletons (Gen/ParserRun.lean, Gen/ParserReader.lean: "
                      "model_order_is_source_order); what each statement *does* (mainStep/cbStep) is by reading; "
